@@ -235,6 +235,8 @@ static std::string runCase(const std::string& id, std::vector<std::string>& tk) 
       if (v.empty()) throw std::runtime_error("decompose of empty"); cx.st.push_back(v[k % v.size()]);
     } else if (t == "dup") { Manifold a = cx.pop(); cx.st.push_back(a); cx.st.push_back(a);
     } else if (t == "swap") { Manifold b = cx.pop(), a = cx.pop(); cx.st.push_back(b); cx.st.push_back(a);
+    } else if (t == "over") { Manifold b = cx.pop(), a = cx.pop(); cx.st.push_back(a); cx.st.push_back(b); cx.st.push_back(a);
+    } else if (t == "rot") { Manifold c = cx.pop(), b = cx.pop(), a = cx.pop(); cx.st.push_back(b); cx.st.push_back(c); cx.st.push_back(a);
     } else throw std::runtime_error("unknown token " + t);
   }
   Manifold r = cx.pop();
